@@ -251,6 +251,7 @@ pub fn dispatch(kind: &str, v: &Value) -> Option<Outcome> {
         "forward-op" => serde_json::from_value::<FwdCase>(v.clone()).ok().map(|c| c.run()),
         "c07-scalar" => serde_json::from_value::<ScalarCase>(v.clone()).ok().map(|c| c.run()),
         "c07-any" => serde_json::from_value::<Case7>(v.clone()).ok().map(|c| c.run()),
+        "forward-op-reuse-sequence" => serde_json::from_value::<ReuseSeqCase>(v.clone()).ok().map(|c| c.run()),
         _ => None,
     }
 }
@@ -259,6 +260,45 @@ pub fn campaigns(ctx: &Ctx) -> Stats {
     let mut st = Stats::default();
     let t = ctx.tier;
     let shapes = all_shapes(4, 3);
+    // ONE array (itself, clones, reshaped views of its buffer) reduced, reshaped and mapped several times in a row: every
+    // sum(k1) / sum(k2) pair on all 120 shapes, then random triples of the unary operations: a result must not depend
+    // on what was computed from the same object before (results remembered per array)
+    {
+        use OpKind::*;
+        let ns = shapes.len() as u64;
+        st.merge(ctx.run_indexed("same-array-summed-twice", ns * 25 * 4, Some("all 120 shapes x all (k1, k2) in 0..=4 (within the rank) x {direct, clone} x {untracked, tracked}: sum(k1), sum(k2), sum(k1) on ONE array"), |i| {
+            let d = &shapes[(i % ns) as usize];
+            let (k1, k2) = (((i / ns) % 5) as usize, ((i / ns / 5) % 5) as usize);
+            let v = i / ns / 25;
+            if k1 > d.len() || k2 > d.len() {
+                return None;
+            }
+            let arg = |c: bool| ReuseArg { leaf: 0, view: None, via_clone: c };
+            Some(ReuseSeqCase { leaves: vec![LeafSpec { dims: d.clone(), vals: gen_vals(i, numel(d), VKind::Int), tracked: v & 2 == 2 }], calls: vec![ReuseCall { op: Sum(k1), args: vec![arg(false)] }, ReuseCall { op: Sum(k2), args: vec![arg(v & 1 == 1)] }, ReuseCall { op: Sum(k1), args: vec![arg(false)] }] })
+        }));
+        st.merge(ctx.run_indexed("same-array-through-several-operations", t.pick(30_000, 600_000), None, |i| {
+            let z = mix(i ^ 0xC07A ^ ctx.seed.wrapping_mul(0x9E3779B1));
+            let d = shapes[(z % ns) as usize].clone();
+            let views = shapes_with_numel(numel(&d));
+            let mut calls = vec![];
+            for c in 0..3u64 {
+                let y = mix(z ^ (c + 31));
+                let view = if (y >> 1) & 3 == 0 { Some(views[((y >> 8) % views.len() as u64) as usize].clone()) } else { None };
+                let rank = view.as_ref().map_or(d.len(), |v| v.len());
+                let op = match (y >> 16) % 9 {
+                    0 | 1 | 2 => Sum(((y >> 24) % (rank as u64 + 1)) as usize),
+                    3 => Softmax,
+                    4 => Exp,
+                    5 => Relu,
+                    6 => Sigmoid,
+                    7 => Neg,
+                    _ => Reshape(views[((y >> 30) % views.len() as u64) as usize].clone()),
+                };
+                calls.push(ReuseCall { op, args: vec![ReuseArg { leaf: 0, view, via_clone: (y >> 3) & 1 == 1 }] });
+            }
+            Some(ReuseSeqCase { leaves: vec![LeafSpec { dims: d.clone(), vals: gen_vals(z, numel(&d), VKind::Small), tracked: (z >> 62) & 1 == 1 }], calls })
+        }));
+    }
     let cases = enumerated(&shapes);
     st.merge(ctx.run_indexed(
         "enumerated-shapes",
